@@ -531,7 +531,7 @@ def random_comp(rnd, d1):
 def compose_mc(comps, names):
     return f"""---- MODULE MC_LoaderCompose ----
 EXTENDS LoaderCompose
-mc_Comps == {tla(comps)}
+mc_Comps == {{{", ".join("[id |-> " + str(i + 1) + ", t |-> " + tla(t) + "]" for i, t in enumerate(comps))}}}
 mc_Names == {{{", ".join(tla(n) for n in names)}}}
 mc_LeafHas == {tla_fun({k: "{" + ", ".join(tla(n) for n in v) + "}" for k, v in LEAF_HAS.items()})}
 ====
@@ -669,7 +669,7 @@ def compose_behaviours(r):
 def compose_inputs(ck):
     rnd = random.Random(ck.seed * 7919 + 28)
     d1 = depth1()
-    nrand = 60 if ck.tier == "quick" else 1500
+    nrand = 60 if ck.tier == "quick" else 1000
     comps = [leaf("A")] + d1 + [random_comp(rnd, d1) for _ in range(nrand)]
     return comps, compose_names(ck.tier == "quick"), len(d1), nrand
 
